@@ -109,13 +109,20 @@ func drawInput(t *rapid.T, label string) []byte {
 }
 
 func drawInfo(t *rapid.T, label string) []byte {
-	switch rapid.IntRange(0, 5).Draw(t, label+".ik") {
+	if rapid.IntRange(0, 40).Draw(t, label+".max") == 0 {
+		b := make([]byte, 65535) // the longest info RFC 9497 allows
+		vlib.FillRandom(t, b, label)
+		return b
+	}
+	switch rapid.IntRange(0, 6).Draw(t, label+".ik") {
 	case 0:
 		return []byte{}
 	case 1:
 		return []byte("test info")
 	case 2:
 		return vlib.Bytes(t, 1, 3, label)
+	case 5:
+		return []byte{rapid.Byte().Draw(t, label+".b")}
 	case 3:
 		return vlib.Bytes(t, 200, 300, label)
 	default:
@@ -438,8 +445,10 @@ func lenClass(n int) string {
 		return "100"
 	case n < 1000:
 		return "101..999"
-	default:
+	case n == 1000:
 		return "1000"
+	default:
+		return ">1000"
 	}
 }
 
@@ -581,15 +590,14 @@ func alterOnce(t *rapid.T, p party, ref refSuite, lbl, desc string, clientPK *op
 			}
 		}
 		detail = fmt.Sprintf("%s %s: proof %x → %x", kind, how, proofBytes, pb)
-		// the altered scalars must differ as residues (a non-canonical alias of the same
-		// residue is an encoding question, property C09, and is only counted)
-		same := func(a, b []byte) bool {
-			x := new(big.Int).Mod(si.bytesToBig(a), si.order)
-			y := new(big.Int).Mod(si.bytesToBig(b), si.order)
-			return x.Cmp(y) == 0
-		}
-		if same(pb[:L], proofBytes[:L]) && same(pb[L:], proofBytes[L:]) {
+		// the altered encoding must stand for different scalars (a non-canonical alias of the
+		// same residues is an encoding question, property C09, and is only counted)
+		if bytes.Equal(pb, proofBytes) {
 			vlib.Class(sub, "alteration-was-identity")
+			return
+		}
+		if si.sameProofScalars(pb, proofBytes) {
+			vlib.Class(sub, "noncanonical-alias-of-the-same-scalars (C09; not asserted)")
 			return
 		}
 		np := new(dleq.Proof)
@@ -782,7 +790,7 @@ func TestC16OPRF(t *testing.T) {
 		for mode := byte(0); mode < 3; mode++ {
 			si, mode := si, mode
 			t.Run(si.name+"/"+modeNames[mode], func(t *testing.T) {
-				n := vlib.N(36, 400) / si.cost
+				n := si.cases([4]int{100, 100, 30, 14}, 5)
 				if mode == 0 {
 					n = n * 2 / 3
 				}
